@@ -13,7 +13,7 @@ pub const TEXT_FRAGS: &[&str] = &[
     "# HELP a b", "1", "+Inf", "NaN", "\\x", "\u{feff}", "a b", "\\", "\u{0b}", "\u{0c}",
 ];
 
-/// Long fragments (>= 1 KiB after escaping, in ASCII, multi-byte and all-escapes flavours): internal
+/// Long fragments (1 KiB - 300 KB after escaping, in ASCII, multi-byte and all-escapes flavours): internal
 /// buffers and fast paths tend to have thresholds.
 pub fn long_frags() -> &'static [&'static str] {
     static POOL: std::sync::OnceLock<Vec<&'static str>> = std::sync::OnceLock::new();
@@ -29,6 +29,15 @@ pub fn long_frags() -> &'static [&'static str] {
             mk("\n".repeat(700)),
             mk("z".repeat(4097)),
             mk("q\"".repeat(9000)),
+            // around the usual buffer capacities: 8 KiB (BufWriter), 16 KiB, 32 KiB, 64 KiB, and well beyond
+            mk("w".repeat(8191)),
+            mk("w".repeat(8193)),
+            mk("v".repeat(16385)),
+            mk("u".repeat(32769)),
+            mk("t".repeat(65535)),
+            mk("t".repeat(65537)),
+            mk("é".repeat(40000)),
+            mk("s".repeat(300_001)),
         ]
     })
 }
